@@ -23,6 +23,12 @@ fn main() {
   let code = match args[1].as_str() {
     "mapper-graph" => engines::mapper_graph::main(&rest),
     "mapper-replay" => engines::mapper_graph::replay_main(&rest),
+    "wire" => engines::wire::main(&rest),
+    "wire-replay" => engines::wire::replay_main(&rest),
+    "listing-gen" => engines::listing::main(&rest),
+    "listing-ns" => engines::listing::ns_main(&rest),
+    "listing-probe" => engines::listing::probe_main(&rest),
+    "listing-replay" => engines::listing::replay_main(&rest),
     other => {
       eprintln!("unknown engine {}", other);
       2
